@@ -383,7 +383,17 @@ class ndarray:  # noqa: F811
                 for post_t in itertools.product(*[rng(it) for it in post]):
                     base = base_pre + sum(v * strides[it[2]] for v, it in zip(post_t, post) if it[0] != "new")
                     if any(is_sym(i) for i in idxs):
-                        pos.append(("sym", base, [(i, strides[dd], self.shape[dd]) for i, dd in zip(idxs, adv_dims)]))
+                        b2, parts = base, []
+                        for i, dd in zip(idxs, adv_dims):
+                            if is_sym(i):
+                                parts.append((i, strides[dd], self.shape[dd]))
+                            else:
+                                n = self.shape[dd]
+                                ii = int(i) + n if int(i) < 0 else int(i)
+                                if not 0 <= ii < n:
+                                    raise IndexError(f"index {i} is out of bounds for axis {dd} with size {n}")
+                                b2 += ii * strides[dd]
+                        pos.append(("sym", b2, parts))
                     else:
                         p = base
                         for i, dd in zip(idxs, adv_dims):
@@ -401,11 +411,16 @@ class ndarray:  # noqa: F811
         if isinstance(p, int):
             return self.buf[self.ix[p]]
         _, base, parts = p
-        if len(parts) != 1:
-            raise Unsupported("multi-axis symbolic gather")
-        idx, stride, n = parts[0]
-        cands = [self.buf[self.ix[base + k * stride]] for k in range(n)]
-        return _select(cands, idx)
+
+        def rec(b, ps):
+            if not ps:
+                return self.buf[self.ix[b]]
+            idx, stride, n = ps[0]
+            # negative symbolic indices wrap like NumPy's
+            idx2 = ite(r_cmp("lt", idx, 0), r_add(idx, n), idx)
+            return _select([rec(b + k * stride, ps[1:]) for k in range(n)], idx2)
+
+        return rec(base, parts)
 
     def __getitem__(self, key):
         pos, shape, view = self._resolve(key)
@@ -807,7 +822,10 @@ def reshape(a, shape=None, newshape=None):
     if -1 in shape:
         j = shape.index(-1)
         rest = _prod([s for i, s in enumerate(shape) if i != j])
-        shape[j] = a.size // rest if rest else 0
+        if rest == 0 or a.size % rest:
+            # NumPy cannot infer -1 next to a zero-size axis
+            raise ValueError(f"cannot reshape array of size {a.size} into shape {tuple(shape)}")
+        shape[j] = a.size // rest
     if _prod(shape) != a.size:
         raise ValueError(f"cannot reshape array of size {a.size} into shape {tuple(shape)}")
     return ndarray(a.buf, list(a.ix), tuple(shape), a._dt)
